@@ -49,6 +49,9 @@ func init() {
 	})
 	reg("vxChoose", func(fr *frame, a []value) value {
 		n := int(asInt64(a[1]))
+		if prev, ok := fr.i.ps.ChoiceVals[strArg(a[0])]; ok {
+			return prev // same name, same value (like the scalar nondets)
+		}
 		c := fr.i.ps.choose(n)
 		fr.i.ps.Choices = append(fr.i.ps.Choices, fmt.Sprintf("%s=%d", strArg(a[0]), c))
 		fr.i.ps.ChoiceVals[strArg(a[0])] = c
